@@ -239,6 +239,12 @@ func checkC01(e *world.Env, conns []*c01Conn, ops []*world.Op) {
 		if op.MetaK != "" && !world.MetaHas(s.ev.Meta, op.MetaK, op.MetaV) {
 			e.Fail("C01/handler-meta-differs", "op %s (%s): handler meta %q lacks %s=%s", op.Tag, cellInfo, s.ev.Meta, op.MetaK, op.MetaV)
 		}
+		// exactly the metadata its sender supplied: none of the other keys senders use may show
+		for _, k := range world.MetaKeys() {
+			if k != op.MetaK && strings.Contains("&"+s.ev.Meta, "&"+k+"=") {
+				e.Fail("C01/handler-meta-differs", "op %s (%s): handler meta %q carries %s, which this message was not sent with (it was sent with %q)", op.Tag, cellInfo, s.ev.Meta, k, op.MetaK)
+			}
+		}
 		if op.Kind == "push" {
 			continue
 		}
